@@ -313,18 +313,26 @@ spec fn ktr_complete(ktr: Seq<KeyCode>, am: Seq<Mapping>, n: int, mo: Seq<KeyCod
 spec fn ktr_cur(ktr: Seq<KeyCode>, to: Seq<KeyCode>, n: int, mo: Seq<KeyCode>) -> bool {
   forall|p: int| to.len() - n <= p < to.len() && 0 <= p ==> (mo.contains(#[trigger] to[p]) ==> ktr.contains(to[p]))
 }
-proof fn lemma_ktr_push(k0: Seq<KeyCode>, x: KeyCode, am: Seq<Mapping>, n: int, mo: Seq<KeyCode>, to: Seq<KeyCode>, n2: int, j: int)
+proof fn lemma_ktr_push_sound(k0: Seq<KeyCode>, x: KeyCode, am: Seq<Mapping>, j: int)
   requires
-    //@ C05 C04 | scope of the keys a step lifts
-    ktr_sound(k0, am), ktr_complete(k0, am, n, mo), ktr_cur(k0, to, n2, mo), 0 <= j < am.len(), is_ram_src(am[j]), am[j].to@.contains(x)
-  ensures ktr_sound(k0.push(x), am), ktr_complete(k0.push(x), am, n, mo), ktr_cur(k0.push(x), to, n2, mo), k0.push(x).contains(x)
+    //@ C05 | scope: only output keys of key-producing mappings in effect that carry modifiers are collected for lifting
+    ktr_sound(k0, am), 0 <= j < am.len(), is_ram_src(am[j]), am[j].to@.contains(x)
+  ensures ktr_sound(k0.push(x), am)
 {
   lemma_push_contains(k0, x);
   assert forall|y: KeyCode| #[trigger] k0.push(x).contains(y) implies ram_target(am, y) by { if y == x { assert(act_map(am[j]) && am[j].to@.contains(x)); } else { assert(k0.contains(y)); } }
 }
+proof fn lemma_ktr_push_complete(k0: Seq<KeyCode>, x: KeyCode, am: Seq<Mapping>, n: int, mo: Seq<KeyCode>, to: Seq<KeyCode>, n2: int)
+  requires
+    //@ C04 | completeness: every held output key of the key-producing mappings with modifiers scanned so far is collected for lifting
+    ktr_complete(k0, am, n, mo), ktr_cur(k0, to, n2, mo)
+  ensures ktr_complete(k0.push(x), am, n, mo), ktr_cur(k0.push(x), to, n2, mo), k0.push(x).contains(x)
+{
+  lemma_push_contains(k0, x);
+}
 proof fn lemma_ktr_next(ktr: Seq<KeyCode>, am: Seq<Mapping>, n: int, mo: Seq<KeyCode>, done: bool)
   requires
-    //@ C05 C04 | scope of the keys a step lifts
+    //@ C04 | completeness: every held output key of the key-producing mappings with modifiers scanned so far is collected for lifting
     ktr_complete(ktr, am, n, mo), 0 <= n < am.len(), done ==> ktr_cur(ktr, am[n].to@, am[n].to@.len() as int, mo), !done ==> !is_ram_src(am[n])
   ensures ktr_complete(ktr, am, n + 1, mo)
 {
@@ -583,7 +591,7 @@ fn release_action_mappings(state: &mut State) -> (events: Vec<Event>)
     sub(final(state).mapped_output_keys@, old(state).mapped_output_keys@),
     final(state).mapped_absorbed_keys@ == old(state).mapped_absorbed_keys@,
     final(state).absorbing_trigger == old(state).absorbing_trigger,
-    //@ C05 C04 | scope: the only keys lifted are output keys of key-producing mappings in effect that carry modifiers
+    //@ C05 | scope: the only keys lifted are output keys of key-producing mappings in effect that carry modifiers
     ram_scope(*old(state), *final(state)),
     //@ C04 | completeness: afterwards no output key of a key-producing mapping in effect that carries modifiers is still held for a mapping (no stale modifiers)
     ram_done(*final(state)),
@@ -611,20 +619,24 @@ fn release_action_mappings(state: &mut State) -> (events: Vec<Event>)
       keys_to_release@.no_duplicates(),
       //@  | frame / auxiliary
       keys_to_release@.to_set().subset_of(mo_old),
-      //@ C05 C04 | the keys collected for lifting are exactly the held outputs of the key-producing mappings with modifiers scanned so far
+      //@  | frame / auxiliary
       am == old(state).active_mappings@, mo_seq == old(state).mapped_output_keys@,
       it1.seq().len() == am.len(), forall|j: int| 0 <= j < am.len() ==> *it1.seq()[j] == am[j],
+      //@ C05 | scope: only output keys of key-producing mappings in effect that carry modifiers are collected for lifting
       ktr_sound(keys_to_release@, am),
+      //@ C04 | completeness: every held output key of the key-producing mappings with modifiers scanned so far is collected for lifting
       ktr_complete(keys_to_release@, am, it1.index@ as int, mo_seq),
     { //@ | body
-    //@ C05 C04 | scope / completeness of the keys lifted with the outputs of key-producing mappings that carry modifiers
+    //@  | frame / auxiliary
     let ghost n1 = it1.index@ as int;
     proof { assert(*exsting_mapping == am[n1]); }
     let ghost mut scanned = false;
     if is_action_mapping(exsting_mapping) {
       if exsting_mapping.to.len() > 1 && is_any_modifier(&exsting_mapping.to) {
-        //@ C05 C04 | scope / completeness of the keys lifted with the outputs of key-producing mappings that carry modifiers
-        proof { scanned = true; assert(is_ram_src(am[n1])); }
+        //@ C05 | scope: only output keys of key-producing mappings in effect that carry modifiers are collected for lifting
+        proof { assert(is_ram_src(am[n1])); }
+        //@  | frame / auxiliary
+        proof { scanned = true; }
         for mod_key in it2: exsting_mapping.to.iter().rev()
           invariant
             //@  | frame / auxiliary
@@ -642,14 +654,16 @@ fn release_action_mappings(state: &mut State) -> (events: Vec<Event>)
             keys_to_release@.no_duplicates(),
             //@  | frame / auxiliary
             keys_to_release@.to_set().subset_of(mo_old),
-            //@ C05 C04 | the keys collected for lifting are exactly the held outputs of the key-producing mappings with modifiers scanned so far
+            //@  | frame / auxiliary
             am == old(state).active_mappings@, mo_seq == old(state).mapped_output_keys@, 0 <= n1 < am.len(), *exsting_mapping == am[n1], is_ram_src(am[n1]),
             it2.seq().len() == am[n1].to@.len(), forall|j: int| 0 <= j < am[n1].to@.len() ==> *it2.seq()[j] == am[n1].to@[am[n1].to@.len() - 1 - j],
+            //@ C05 | scope: only output keys of key-producing mappings in effect that carry modifiers are collected for lifting
             ktr_sound(keys_to_release@, am),
+            //@ C04 | completeness: every held output key of the key-producing mappings with modifiers scanned so far is collected for lifting
             ktr_complete(keys_to_release@, am, n1, mo_seq),
             ktr_cur(keys_to_release@, am[n1].to@, it2.index@ as int, mo_seq),
           { //@ | body
-          //@ C05 C04 | scope / completeness of the keys lifted with the outputs of key-producing mappings that carry modifiers
+          //@  | frame / auxiliary
           let ghost p2 = am[n1].to@.len() - 1 - it2.index@; let ghost kk0 = keys_to_release@;
           proof { assert(*mod_key == am[n1].to@[p2]); assert(am[n1].to@.contains(*mod_key)); }
           if state.mapped_output_keys.contains(mod_key) && !keys_to_release.contains(mod_key) {
@@ -657,10 +671,12 @@ fn release_action_mappings(state: &mut State) -> (events: Vec<Event>)
             keys_to_release.push(*mod_key);
             //@  | frame / auxiliary
             proof { lemma_push_set(k0, *mod_key); lemma_push_nodup(k0, *mod_key); lemma_ts(old(state).mapped_output_keys@, *mod_key); assert(mo_old.contains(*mod_key)); }
-            //@ C05 C04 | scope / completeness of the keys lifted with the outputs of key-producing mappings that carry modifiers
-            proof { lemma_ktr_push(k0, *mod_key, am, n1, mo_seq, am[n1].to@, it2.index@ as int, n1); }
+            //@ C05 | scope: only output keys of key-producing mappings in effect that carry modifiers are collected for lifting
+            proof { lemma_ktr_push_sound(k0, *mod_key, am, n1); }
+            //@ C04 | completeness: every held output key of the key-producing mappings with modifiers scanned so far is collected for lifting
+            proof { lemma_ktr_push_complete(k0, *mod_key, am, n1, mo_seq, am[n1].to@, it2.index@ as int); }
           }
-          //@ C05 C04 | scope / completeness of the keys lifted with the outputs of key-producing mappings that carry modifiers
+          //@ C04 | completeness: every held output key of the key-producing mappings with modifiers scanned so far is collected for lifting
           proof { assert(ktr_cur(keys_to_release@, am[n1].to@, it2.index@ as int + 1, mo_seq)) by {
             assert forall|p: int| am[n1].to@.len() - (it2.index@ as int + 1) <= p < am[n1].to@.len() && 0 <= p implies (mo_seq.contains(#[trigger] am[n1].to@[p]) ==> keys_to_release@.contains(am[n1].to@[p])) by {
               if p == p2 { } else { assert(mo_seq.contains(am[n1].to@[p]) ==> kk0.contains(am[n1].to@[p])); if kk0.contains(am[n1].to@[p]) && keys_to_release@ != kk0 { lemma_push_contains(kk0, *mod_key); } }
@@ -668,7 +684,7 @@ fn release_action_mappings(state: &mut State) -> (events: Vec<Event>)
         }
       }
     }
-    //@ C05 C04 | scope / completeness of the keys lifted with the outputs of key-producing mappings that carry modifiers
+    //@ C04 | completeness: every held output key of the key-producing mappings with modifiers scanned so far is collected for lifting
     proof { lemma_ktr_next(keys_to_release@, am, n1, mo_seq, scanned); }
   }
   
@@ -760,10 +776,11 @@ fn release_action_mappings(state: &mut State) -> (events: Vec<Event>)
       let j = choose|j: int| 0 <= j < events@.len() && events@[j] == e;
       assert(events@[j] == Event::Released(keys_to_release@[j]));
     }
-    //@ C05 C04 | scope / completeness of the keys lifted with the outputs of key-producing mappings that carry modifiers
+    //@ C05 | scope: only output keys of key-producing mappings in effect that carry modifiers are collected for lifting
     assert(ram_scope(*old(state), *state)) by { reveal(ram_scope);
       assert forall|x: KeyCode| #![trigger old(state).mapped_output_keys@.contains(x)] old(state).mapped_output_keys@.contains(x) && !state.mapped_output_keys@.contains(x) implies ram_target(am, x) by {
         lemma_ts(old(state).mapped_output_keys@, x); lemma_ts(state.mapped_output_keys@, x); assert(ktr.contains(x)); lemma_ts(keys_to_release@, x); } }
+    //@ C04 | completeness: every held output key of the key-producing mappings with modifiers scanned so far is collected for lifting
     assert(ram_done(*state)) by { reveal(ram_done);
       assert forall|x: KeyCode| #[trigger] state.mapped_output_keys@.contains(x) implies !ram_target(state.active_mappings@, x) by {
         lemma_ts(old(state).mapped_output_keys@, x); lemma_ts(state.mapped_output_keys@, x); lemma_ts(keys_to_release@, x);
@@ -900,7 +917,7 @@ fn release_absorbed_keys(state: &mut State) -> (events: Vec<Event>)
     forall|x: KeyCode| #[trigger] old(state).input_pressed_keys@.contains(x) && !old(state).mapped_absorbed_keys@.contains(x) ==> final(state).input_pressed_keys@.contains(x),
     //@ C01 C02 | inclusion invariant J (every held output key is justified by what is pressed)
     am_sub(final(state).active_mappings@, final(state).active_mappings@.len() as int, old(state).active_mappings@),
-    //@ C08 C05 | every key that was absorbed is neither considered pressed nor passed through afterwards
+    //@ C08 | every key that was absorbed is neither considered pressed nor passed through afterwards
     forall|d: KeyCode| #[trigger] old(state).mapped_absorbed_keys@.contains(d) ==> !final(state).input_pressed_keys@.contains(d) && !final(state).pass_through_keys@.contains(d),
     //@ C05 | every other passed-through key stays down; with nothing absorbed the call does nothing
     rak_pt(*final(state), *old(state), old(state).mapped_absorbed_keys@),
@@ -924,7 +941,10 @@ fn release_absorbed_keys(state: &mut State) -> (events: Vec<Event>)
       rak_pt(*state, *old(state), tr.take(it0.index@ as int)),
       tr.len() == 0 ==> rak_idle(*state, *old(state), events@),
       //@ C01 C02 | inclusion invariant J (every held output key is justified by what is pressed)
-      rak_inv(*state, *old(state), h0, events@, tr.take(it0.index@ as int)),
+      rak_core(*state, *old(state), h0, events@, tr.take(it0.index@ as int)),
+      //@ C08 | the absorbed keys handled so far are no longer considered pressed and no longer passed through
+      rak_gone(*state, tr.take(it0.index@ as int)),
+      //@ C01 C02 | inclusion invariant J (every held output key is justified by what is pressed)
       j2(*old(state)) ==> j2(*state),
       j3(*old(state)) ==> j3(*state),
       //@ C02 | (d) trigger keys of mappings in effect are consumed (not passed through)
@@ -945,7 +965,10 @@ fn release_absorbed_keys(state: &mut State) -> (events: Vec<Event>)
           //@ C05 | every other passed-through key stays down
           rak_pt(*state, *old(state), done0),
           //@ C01 C02 | inclusion invariant J (every held output key is justified by what is pressed)
-          rak_inv(*state, *old(state), h0, events@, done0),
+          rak_core(*state, *old(state), h0, events@, done0),
+          //@ C08 | the absorbed keys handled so far are no longer considered pressed and no longer passed through
+          rak_gone(*state, done0),
+          //@ C01 C02 | inclusion invariant J (every held output key is justified by what is pressed)
           j2(*old(state)) ==> j2(*state),
           j3(*old(state)) ==> j3(*state),
           //@ C02 | (d) trigger keys of mappings in effect are consumed (not passed through)
@@ -992,7 +1015,10 @@ fn release_absorbed_keys(state: &mut State) -> (events: Vec<Event>)
         //@ C05 | every other passed-through key stays down
         rak_pt(*state, *old(state), done1), done1.contains(k),
         //@ C01 C02 | inclusion invariant J (every held output key is justified by what is pressed)
-        rak_inv(*state, *old(state), h0, events@, done0),
+        rak_core(*state, *old(state), h0, events@, done0),
+        //@ C08 | the absorbed keys handled so far are no longer considered pressed and no longer passed through
+        rak_gone(*state, done0),
+        //@ C01 C02 | inclusion invariant J (every held output key is justified by what is pressed)
         j2(*old(state)) ==> j2(*state),
         j3(*old(state)) ==> j3(*state),
         //@ C02 | (d) trigger keys of mappings in effect are consumed (not passed through)
@@ -1061,11 +1087,14 @@ fn release_absorbed_keys(state: &mut State) -> (events: Vec<Event>)
             assert forall|x: KeyCode| #[trigger] ip0.contains(x) && x != k implies state.input_pressed_keys@.contains(x) by { let j2 = choose|j2: int| 0 <= j2 < ip0.len() && ip0[j2] == x; let j = if j2 < __i { j2 } else { j2 - 1 }; assert(state.input_pressed_keys@[j] == x); }
             assert forall|j: int| 0 <= j < __i implies state.input_pressed_keys@[j] == ip0[j] by {}
           } } }
+    //@ C08 | the absorbed key handled in this iteration is no longer considered pressed
     proof {
-      // k is gone from the pressed list; re-establish j2 / j3 over the shrunken list
       assert(!state.input_pressed_keys@.contains(k)) by {
         if state.input_pressed_keys@.contains(k) { let j = choose|j: int| 0 <= j < state.input_pressed_keys@.len() && state.input_pressed_keys@[j] == k; assert(state.input_pressed_keys@[j] != k); }
       }
+    }
+    //@ C01 C02 | inclusion invariant J: re-established over the shrunken list of pressed keys
+    proof {
       if j3(*old(state)) {
         assert forall|j: int| 0 <= j < state.active_mappings@.len() implies sub(#[trigger] state.active_mappings@[j].from@, state.input_pressed_keys@) by {
           assert(sub(state.active_mappings@[j].from@, ipb));
@@ -1368,7 +1397,7 @@ spec fn anm_rel(o: State, m: Mapping, evs: Seq<Event>) -> bool { forall|x: KeyCo
 // a key released by a batch of releases was down before the batch and is up after it
 proof fn lemma_released_gone(h: Set<KeyCode>, evs: Seq<Event>, x: KeyCode)
   requires
-    //@ C05 C04 | scope of the keys a step lifts
+    //@ C05 | scope of the keys a step lifts
     all_released(evs), apply(h, evs) is Some, rel(evs, x)
   ensures h.contains(x), !apply(h, evs).unwrap().contains(x)
   decreases evs.len()
@@ -1384,11 +1413,11 @@ proof fn lemma_released_gone(h: Set<KeyCode>, evs: Seq<Event>, x: KeyCode)
 }
 proof fn lemma_anm_rel_empty(o: State, m: Mapping, evs: Seq<Event>)
   requires
-    //@ C05 C04 | scope of the keys a step lifts
+    //@ C05 | scope of the keys a step lifts
     evs.len() == 0 ensures anm_rel(o, m, evs) { reveal(anm_rel); }
 proof fn lemma_anm_rel_ram(o: State, st: State, m: Mapping, c: Seq<Event>)
   requires
-    //@ C05 C04 | scope of the keys a step lifts
+    //@ C05 | scope of the keys a step lifts
     all_released(c), apply(held(o), c) == Some(held(st)), st.pass_through_keys@ == o.pass_through_keys@, ram_scope(o, st), act_map(m)
   ensures anm_rel(o, m, c)
 {
@@ -1400,7 +1429,7 @@ proof fn lemma_anm_rel_ram(o: State, st: State, m: Mapping, c: Seq<Event>)
 }
 proof fn lemma_anm_rel_rak(o: State, sp: State, st: State, m: Mapping, e1: Seq<Event>, c: Seq<Event>)
   requires
-    //@ C05 C04 | scope of the keys a step lifts
+    //@ C05 | scope of the keys a step lifts
     anm_rel(o, m, e1), all_released(c), apply(held(sp), c) == Some(held(st)), sp.pass_through_keys@ == o.pass_through_keys@, sub(sp.mapped_output_keys@, o.mapped_output_keys@),
     sp.mapped_absorbed_keys@ == o.mapped_absorbed_keys@, rak_pt(st, sp, sp.mapped_absorbed_keys@), sp.mapped_absorbed_keys@.len() == 0 ==> rak_idle(st, sp, c)
   ensures anm_rel(o, m, e1 + c)
@@ -1417,7 +1446,7 @@ proof fn lemma_anm_rel_rak(o: State, sp: State, st: State, m: Mapping, e1: Seq<E
 }
 proof fn lemma_anm_rel_push(o: State, m: Mapping, e0: Seq<Event>, e: Event)
   requires
-    //@ C05 C04 | scope of the keys a step lifts
+    //@ C05 | scope of the keys a step lifts
     anm_rel(o, m, e0), match e { Event::Released(x) => anm_scope(o, m, x), _ => true }
   ensures anm_rel(o, m, e0.push(e))
 {
@@ -1429,7 +1458,7 @@ proof fn lemma_anm_rel_push(o: State, m: Mapping, e0: Seq<Event>, e: Event)
 }
 proof fn lemma_anm_rel_raak(o: State, m: Mapping, e0: Seq<Event>, c: Seq<Event>, hm0: Set<KeyCode>, h1: Set<KeyCode>)
   requires
-    //@ C05 C04 | scope of the keys a step lifts
+    //@ C05 | scope of the keys a step lifts
     anm_rel(o, m, e0), all_released(c), apply(hm0, c) == Some(h1), forall|k: KeyCode| hm0.contains(k) && is_mod(k) ==> h1.contains(k), !(m.repeat is Normal)
   ensures anm_rel(o, m, e0 + c)
 {
@@ -1585,9 +1614,9 @@ fn add_new_mapping(state: &mut State, new_key: &KeyCode, m: &Mapping) -> (res: S
     c03_fire(*m, res.events@, held(*final(state))),
     //@ C07 | after a mapping with Disabled or Special repeat fired, only modifiers are held
     c07_fire(*m, held(*final(state))),
-    //@ C08 C04 C05 | the only keys this step presses are output keys of the fired mapping
+    //@ C02 C05 C08 | the only keys this step presses are output keys of the fired mapping
     only_presses(res.events@, m.to@),
-    //@ C05 C04 | the only keys this step lifts: outputs of key-producing mappings in effect that carry modifiers (when the fired mapping is key-producing), passed-through trigger keys the mapping does not output, its own non-modifier outputs (lifted and pressed again), any non-modifier key when its repeat is not Normal; and, only while keys are absorbed, held mapping outputs, absorbed keys and trigger keys
+    //@ C05 | the only keys this step lifts: outputs of key-producing mappings in effect that carry modifiers (when the fired mapping is key-producing), passed-through trigger keys the mapping does not output, its own non-modifier outputs (lifted and pressed again), any non-modifier key when its repeat is not Normal; and, only while keys are absorbed, held mapping outputs, absorbed keys and trigger keys
     anm_rel(*old(state), *m, res.events@),
     //@ C04 | a key-producing mapping fires while nothing is absorbed: at the instant its final output key is pressed every modifier it lists is down, and every other modifier that is down is considered pressed and not one of its trigger keys, or is an output key of a modifier-remapping in effect
     c04_cond(*old(state), *m) ==> c04_anm(*old(state), *m, res.events@),
@@ -1613,7 +1642,7 @@ fn add_new_mapping(state: &mut State, new_key: &KeyCode, m: &Mapping) -> (res: S
   proof { assert(all_released(events@)); }
   let ghost h0 = held(*old(state));
   let ghost mut s_ram = *old(state); let ghost c04c = c04_cond(*old(state), *m);
-  //@ C05 C04 | scope of the keys lifted so far
+  //@ C05 | scope of the keys lifted so far
   proof { lemma_anm_rel_empty(*old(state), *m, events@); }
   //@  | frame / auxiliary
   
@@ -1635,7 +1664,7 @@ fn add_new_mapping(state: &mut State, new_key: &KeyCode, m: &Mapping) -> (res: S
     if should_absorb {
       let ghost e1 = events@; let ghost hm1 = held(*state); let ghost am_pre = state.active_mappings@; let ghost s_pre = *state;
       events.append(&mut release_absorbed_keys(state));
-      //@ C05 C04 | scope of the keys lifted so far
+      //@ C05 | scope of the keys lifted so far
       proof { let c2r = choose|c: Seq<Event>| events@ == e1 + c && apply(hm1, c) == Some(held(*state)) && all_released(c); lemma_anm_rel_rak(*old(state), s_pre, *state, *m, e1, c2r); }
       //@  | frame / auxiliary
       proof { lemma_nonempty_sub(state.active_mappings@, am_pre); lemma_am_sub_trans(state.active_mappings@, am_pre, old(state).active_mappings@); let c2 = choose|c: Seq<Event>| events@ == e1 + c && apply(hm1, c) == Some(held(*state)) && all_released(c); lemma_apply_append(h0, e1, c2); lemma_append_contains(e1, c2); assert(jx(*state, m.to@)); assert((j2(*old(state)) ==> j2(*state)) && (j3(*old(state)) ==> j3(*state)) && (j4(*old(state)) ==> j4(*state)) && (j6(*old(state)) ==> j6(*state)) && sub(state.input_pressed_keys@, old(state).input_pressed_keys@) && (forall|x: KeyCode| #[trigger] old(state).input_pressed_keys@.contains(x) && (!old(state).mapped_absorbed_keys@.contains(x) || old(state).absorbing_trigger == Some(nk0)) ==> state.input_pressed_keys@.contains(x)) && anm_extra(*old(state), *state, m.absorbing@)); }
@@ -1646,7 +1675,7 @@ fn add_new_mapping(state: &mut State, new_key: &KeyCode, m: &Mapping) -> (res: S
   let ghost cleared = has_action(m.to@) && old(state).absorbing_trigger != Some(nk0);
   let ghost gone: Seq<KeyCode> = if cleared { old(state).mapped_absorbed_keys@ } else { Seq::empty() };
   proof { assert(abs_phase(*old(state), *state, nk0, m.to@)); assert(gone_keep(*state, gone)); assert(all_released(events@)); }
-  //@ C05 C04 | scope of the keys lifted so far
+  //@ C05 | scope of the keys lifted so far
   proof { assert(old(state).mapped_absorbed_keys@.len() == 0 ==> pt_s1 == old(state).pass_through_keys@); }
   //@ C04 | the instant the final output key goes down: listed modifiers down, no stale modifier
   proof { assert(c04c ==> mo_s1 == s_ram.mapped_output_keys@ && ram_done(s_ram) && s_ram.active_mappings@ == old(state).active_mappings@ && sub(s_ram.mapped_output_keys@, old(state).mapped_output_keys@)); }
@@ -1668,7 +1697,7 @@ fn add_new_mapping(state: &mut State, new_key: &KeyCode, m: &Mapping) -> (res: S
       forall|x: KeyCode| #[trigger] mapped_output_keys@.contains(x) ==> mo_s1.contains(x) || m.to@.contains(x),
       sub(pass_through_keys@, pt_s1), all_released(events@),
       forall|j: int| 0 <= j < __i ==> !m.from@.contains(#[trigger] pass_through_keys@[j]) && !m.to@.contains(pass_through_keys@[j]),
-      //@ C05 C04 | scope of the keys lifted so far
+      //@ C05 | scope of the keys lifted so far
       anm_rel(*old(state), *m, events@), old(state).mapped_absorbed_keys@.len() == 0 ==> pt_s1 == old(state).pass_through_keys@,
     decreases pass_through_keys@.len() - __i
   { let ghost pt0 = pass_through_keys@; let ghost mo0 = mapped_output_keys@; let ghost e0 = events@;
@@ -1721,9 +1750,9 @@ fn add_new_mapping(state: &mut State, new_key: &KeyCode, m: &Mapping) -> (res: S
       (j2(*old(state)) ==> j2(*state)) && (j3(*old(state)) ==> j3(*state)) && (j4(*old(state)) ==> j4(*state)) && (j6(*old(state)) ==> j6(*state)) && sub(state.input_pressed_keys@, old(state).input_pressed_keys@) && (forall|x: KeyCode| #[trigger] old(state).input_pressed_keys@.contains(x) && (!old(state).mapped_absorbed_keys@.contains(x) || old(state).absorbing_trigger == Some(nk0)) ==> state.input_pressed_keys@.contains(x)) && anm_extra(*old(state), *state, m.absorbing@),
       //@ C03 C07 | the output keys handled so far are held, the non-modifier ones were pressed by an event of this step
       out_done(m.to@, it.index@ as int, events@, held(*state)),
-      //@ C08 C04 C05 | so far only output keys of the mapping have been pressed
+      //@ C02 C05 C08 | so far only output keys of the mapping have been pressed
       only_presses(events@, m.to@),
-      //@ C05 C04 | scope of the keys lifted so far
+      //@ C05 | scope of the keys lifted so far
       anm_rel(*old(state), *m, events@),
       //@ C04 | the instant the final output key goes down: listed modifiers down, no stale modifier
       c04c == c04_cond(*old(state), *m), h0 == held(*old(state)), c04c ==> c04_st(*state, *old(state), *m),
@@ -1745,7 +1774,7 @@ fn add_new_mapping(state: &mut State, new_key: &KeyCode, m: &Mapping) -> (res: S
         events.push(Released(*new_key));
         let ghost e1 = events@;
         events.push(Pressed(*new_key));
-        //@ C05 C04 | scope of the keys lifted so far
+        //@ C05 | scope of the keys lifted so far
         proof { lemma_anm_rel_push(*old(state), *m, e0, Event::Released(*new_key)); lemma_anm_rel_push(*old(state), *m, e1, Event::Pressed(*new_key)); }
         //@  | frame / auxiliary
         proof { assert(e1.drop_last() =~= e0); assert(events@.drop_last() =~= e1); assert(held(*state).remove(*new_key).insert(*new_key) =~= held(*state)); assert(apply(h0, events@) == Some(held(*state))); }
@@ -1755,7 +1784,7 @@ fn add_new_mapping(state: &mut State, new_key: &KeyCode, m: &Mapping) -> (res: S
           events.push(Released(*new_key));
           let ghost e1 = events@;
           events.push(Pressed(*new_key));
-          //@ C05 C04 | scope of the keys lifted so far
+          //@ C05 | scope of the keys lifted so far
         proof { lemma_anm_rel_push(*old(state), *m, e0, Event::Released(*new_key)); lemma_anm_rel_push(*old(state), *m, e1, Event::Pressed(*new_key)); }
         //@  | frame / auxiliary
           proof { assert(e1.drop_last() =~= e0); assert(events@.drop_last() =~= e1); }
@@ -1792,8 +1821,8 @@ fn add_new_mapping(state: &mut State, new_key: &KeyCode, m: &Mapping) -> (res: S
         else {
           events.push(Pressed(*new_key));
           state.mapped_output_keys.push(*new_key);
-          //@ C05 C04 | scope of the keys lifted so far
-          //@ C05 C04 | scope of the keys lifted so far
+          //@ C05 | scope of the keys lifted so far
+          //@ C05 | scope of the keys lifted so far
         proof { lemma_anm_rel_push(*old(state), *m, e0, Event::Pressed(*new_key)); }
         //@  | frame / auxiliary
           //@  | frame / auxiliary
@@ -1806,7 +1835,7 @@ fn add_new_mapping(state: &mut State, new_key: &KeyCode, m: &Mapping) -> (res: S
       if !state.mapped_output_keys.contains(new_key) && !state.pass_through_keys.contains(new_key) {
         events.push(Pressed(*new_key));
         state.mapped_output_keys.push(*new_key);
-        //@ C05 C04 | scope of the keys lifted so far
+        //@ C05 | scope of the keys lifted so far
         proof { lemma_anm_rel_push(*old(state), *m, e0, Event::Pressed(*new_key)); }
         //@  | frame / auxiliary
         proof { assert(events@.drop_last() =~= e0); lemma_push_set(mo0, *new_key); lemma_push_nodup(mo0, *new_key); lemma_push_contains(mo0, *new_key);
@@ -1844,7 +1873,7 @@ fn add_new_mapping(state: &mut State, new_key: &KeyCode, m: &Mapping) -> (res: S
       it.seq().len() == m.absorbing@.len(), forall|j: int| 0 <= j < m.absorbing@.len() ==> *it.seq()[j] == m.absorbing@[j],
       //@ C03 C07 | all output keys are held, the non-modifier ones were pressed by an event of this step
       out_done(m.to@, m.to@.len() as int, events@, held(*state)), only_presses(events@, m.to@),
-      //@ C05 C04 | scope of the keys lifted so far
+      //@ C05 | scope of the keys lifted so far
       anm_rel(*old(state), *m, events@),
       //@ C04 | the instant the final output key goes down: listed modifiers down, no stale modifier
       c04c ==> c04_anm(*old(state), *m, events@),
@@ -2804,7 +2833,7 @@ spec fn st_le(s1: State, o: State) -> bool {
 }
 proof fn lemma_anm_rel_mono(s1: State, o: State, m: Mapping, evs: Seq<Event>)
   requires
-    //@ C05 C04 | scope of the keys a step lifts
+    //@ C05 | scope of the keys a step lifts
     anm_rel(s1, m, evs), st_le(s1, o)
   ensures anm_rel(o, m, evs)
 {
@@ -2910,10 +2939,10 @@ fn newly_press(mapper: &mut Mapper, k: KeyCode) -> (res: StepResult)
     //@ C08 | absorbed keys across a press: the pressed key itself stops being absorbed; the fired mapping's absorbing list is absorbed with the pressed key as trigger; when a non-modifier key goes onto the virtual keyboard and the pressed key is not the absorbing trigger, every key absorbed before is lifted and forgotten; otherwise the absorbed keys stay absorbed
     forall|i: int| #![trigger is_fired(group(old(mapper).layout, k), old(mapper).state, k, i)] is_fired(group(old(mapper).layout, k), old(mapper).state, k, i) ==> c08_np(old(mapper).state, final(mapper).state, k, Some(group(old(mapper).layout, k)[i]), false),
     none_fired(group(old(mapper).layout, k), old(mapper).state, k) ==> c08_np(old(mapper).state, final(mapper).state, k, None, mentioned(old(mapper).state.active_mappings@, k)),
-    //@ C08 C04 C05 | the only keys a press step presses are the output keys of the fired mapping, or the pressed key itself when it is passed through
+    //@ C02 C05 C08 | the only keys a press step presses are the output keys of the fired mapping, or the pressed key itself when it is passed through
     forall|i: int| #![trigger is_fired(group(old(mapper).layout, k), old(mapper).state, k, i)] is_fired(group(old(mapper).layout, k), old(mapper).state, k, i) ==> only_presses(res.events@, group(old(mapper).layout, k)[i].to@),
     none_fired(group(old(mapper).layout, k), old(mapper).state, k) ==> only_presses(res.events@, seq![k]),
-    //@ C05 C04 | the only keys a press step lifts: see anm_scope (a mapping fires) and pt_scope (the key is passed through)
+    //@ C05 | the only keys a press step lifts: see anm_scope (a mapping fires) and pt_scope (the key is passed through)
     forall|i: int| #![trigger is_fired(group(old(mapper).layout, k), old(mapper).state, k, i)] is_fired(group(old(mapper).layout, k), old(mapper).state, k, i) ==> anm_rel(old(mapper).state, group(old(mapper).layout, k)[i], res.events@),
     none_fired(group(old(mapper).layout, k), old(mapper).state, k) ==> np_rel(old(mapper).state, res.events@),
     //@ C04 | a key-producing mapping fires while nothing is absorbed: at the instant its final output key is pressed every modifier it lists is down and no stale modifier is
@@ -3574,9 +3603,9 @@ impl Mapper {
       //@ C08 | absorbed keys across a step: a release leaves the absorbed list and its trigger alone; a new press changes them as C08 prescribes (the pressed key stops being absorbed, the fired mapping's absorbing list is absorbed with the pressed key as trigger, and when a non-modifier key goes onto the virtual keyboard and the pressed key is not the absorbing trigger every key absorbed before is lifted and forgotten)
       match input { Event::Pressed(k) => !old(self).pressed_view().contains(k) ==> Mapper::c08_press(*old(self), *final(self), k),
                     Event::Released(k) => final(self).absorbed_view() == old(self).absorbed_view() && final(self).absorbing_trigger_view() == old(self).absorbing_trigger_view() },
-      //@ C08 C04 C05 | the only keys a press step presses are output keys of the fired mapping, or the pressed key itself when it is passed through
+      //@ C02 C05 C08 | the only keys a press step presses are output keys of the fired mapping, or the pressed key itself when it is passed through
       match input { Event::Pressed(k) => !old(self).pressed_view().contains(k) ==> Mapper::press_scope(*old(self), k, res.events@), _ => true },
-      //@ C05 C04 | the only keys a step lifts: on a press, see lift_scope; on the release of k, k itself and output keys of mappings in effect that have k in their trigger, and never a key that a mapping remaining in effect outputs
+      //@ C05 | the only keys a step lifts: on a press, see lift_scope; on the release of k, k itself and output keys of mappings in effect that have k in their trigger, and never a key that a mapping remaining in effect outputs
       match input { Event::Pressed(k) => !old(self).pressed_view().contains(k) ==> forall|x: KeyCode| #[trigger] rel(res.events@, x) ==> Mapper::lift_scope(*old(self), k, x),
                     Event::Released(k) => forall|x: KeyCode| #[trigger] rel(res.events@, x) ==> Mapper::drop_scope(*old(self), *final(self), k, x) },
       //@ C04 | a key-producing mapping fires while nothing is absorbed: at the instant its final output key is pressed every modifier it lists is already down, and every other modifier that is down is considered pressed and not part of its trigger, or is an output key of a modifier-remapping in effect
